@@ -1,4 +1,5 @@
 import ZenonVerif.Gen.Rewards
+import ZenonVerif.Gen.RewardsNode
 /-
 L5 (part) — the epoch cursor shared by the reward contracts, and the reward deposits. Core Lean only.
 
@@ -38,9 +39,9 @@ structure Cfg where
   /-- a ticker with a non-positive interval does not exist in a running node (`ToTick` divides by it) -/
   epochSec_pos : 0 < epochSec
 
-/-- the live configuration: 24 h epochs, generated constants -/
-def Cfg.live (genesis : Int) (updMin : Nat) : Cfg :=
-  ⟨genesis, 86400, Gen.RewardTimeLimit, updMin, Gen.MaxEpochsPerUpdate, by decide⟩
+/-- the live configuration: every parameter is a generated constant of the tree -/
+def Cfg.live (genesis : Int) : Cfg :=
+  ⟨genesis, Gen.EpochDurationSec, Gen.RewardTimeLimit, Gen.UpdateMinNumMomentums, Gen.MaxEpochsPerUpdate, by decide⟩
 
 /-- second component of `EpochTicker().ToTime(e)`: the (exclusive) end of epoch `e` -/
 def epochEnd (c : Cfg) (e : Int) : Int := c.genesis + c.epochSec * (e + 1)
